@@ -7,6 +7,10 @@ Sub-checks
              endless instrumented sources; each spec evaluated twice
   builder    builder histories: a prefix spec is extended into several derived specs and then used
              again (Iter and Invoke)
+  sentinel   Iter(sentinel=x) over streams of COMPUTED values (strings, ints > 256, floats, floats vs ints,
+             tuples): x is equal to a stream value without being the same object, is the very object, equals only
+             the raw item in front of the sub-spec, or is absent; with and without a sub-spec; hit at the first /
+             a middle / the last position; type-agnostic stages behind; same oracle and laziness bound as `pipeline`
 
 Oracle: refpipe() - the same stages as small independent generator functions.
 """
@@ -17,19 +21,21 @@ from hypothesis import strategies as st
 import glom
 from glom import Iter, T, SKIP, STOP, Invoke, Val, GlomError
 
-from ..runner import Sub, Mismatch
+from ..runner import Sub, Mismatch, HarnessBug
 from .. import targets as tg
 
 PROPERTY = 'C17'
 RULE = ('stage sequences of length 0-4 over the eleven stage kinds with small parameters, type-tracked (int items / sequence items) '
         'so that most pipelines are well-typed; sources: finite lists and endless cyclic counters with a pull budget; '
         'the first k <= 10 outputs and the number of source pulls are compared. '
-        'Non-trivial = >= 2 stages of different kinds, or an endless source, or a re-used base spec.')
+        'Non-trivial = >= 2 stages of different kinds, or an endless source, or a re-used base spec, or a sentinel that is equal to a stream value without being that object.')
 ASSUMPTIONS = [
     'reference stages are written independently of boltons (own chunked/windowed/split/unique)',
     'laziness: pulls(glom, k outputs) <= pulls(reference, k outputs) + per-stage look-ahead allowance (window size, chunk size, 1); '
     'when the input of a windowed(n) stage never yields n-1 items (an endless source whose items are all skipped) the allowed look-ahead itself diverges and nothing is asserted',
     'SKIP/STOP returned from a .map() stage are ordinary values; split(maxsplit=0) is not generated',
+    'the sentinel is looked for among the values Iter(subspec) produces (behind the sub-spec), "same as with the built-in iter()": '
+    'the stream ends in front of the first value v with v is sentinel or v == sentinel; no sentinel= means no comparison at all',
 ]
 BUDGET = 3000
 K = 10
@@ -148,10 +154,71 @@ def gen(draw):
         terminal = 'iter'
     return {'source': src, 'stages': stages,
             'subspec': draw(st.sampled_from([None, None, None, 'skip3_stop5', 'skip_even', 'inc'])),
-            'sentinel': draw(st.sampled_from(['default', 'default', 4, None])),
+            # (4.0 == 4 without being the int object 4: the built-in iter(callable, sentinel) compares with ==)
+            'sentinel': draw(st.sampled_from(['default', 'default', 'default', 4, None, 4.0])),
             'terminal': terminal,
             'first': [draw(st.sampled_from(['T', 'gt4', 'never'])), draw(st.sampled_from([None, 'dflt']))],
             'final_state': state}
+
+
+def gen_agnostic_stages(draw):
+    """stages that work on items of any (hashable) type"""
+    S = st.sampled_from
+    stages = []
+    state = 'item'
+    for _ in range(draw(S([0, 0, 1, 1, 2, 3]))):
+        kind = draw(S(['limit', 'slice', 'chunked', 'windowed', 'unique', 'filter'] if state == 'item'
+                      else ['flatten', 'flatten', 'limit', 'slice', 'filter']))
+        if kind == 'limit':
+            stages.append(['limit', draw(S(range(0, 6)))])
+        elif kind == 'slice':
+            a, b, c = draw(S([None, 0, 1, 2])), draw(S([None, 2, 4, 7])), draw(S([None, 1, 2]))
+            form = draw(S([1, 2, 3]))
+            stages.append(['slice', [b] if form == 1 else ([a, b] if form == 2 else [a, b, c])])
+        elif kind == 'chunked':
+            stages.append(['chunked', draw(S([1, 2, 3])), draw(S(['nofill', 'nofill', None]))])
+            state = 'seq'
+        elif kind == 'windowed':
+            stages.append(['windowed', draw(S([1, 2, 3]))])
+            state = 'seq'
+        elif kind == 'unique':
+            stages.append(['unique', 'T'])
+        elif kind == 'filter':
+            stages.append(['filter', 'T'])
+        else:
+            stages.append(['flatten'])
+            state = 'item'
+    return stages, state
+
+
+def gen_sentinel(draw):
+    """Iter(sentinel=) over computed values: the sentinel is aimed at a chosen position of the stream"""
+    S = st.sampled_from
+    dom = draw(S(sorted(DOMAINS)))
+    sub = draw(st.booleans())
+    ns = [draw(S(range(6))) for _ in range(draw(S(range(0, 9))))]
+    endless = draw(S([False, False, True]))
+    if endless and not ns:
+        ns = [1, 2]
+    kind = draw(S(['eq', 'eq', 'eq', 'eq', 'same', 'raw', 'default']))
+    if kind == 'default':
+        sentinel = 'default'
+    elif kind == 'same':
+        sentinel = ['same', draw(S(range(max(len(ns), 1))))]
+    else:
+        where = draw(S(['first', 'last', 'last', 'any', 'any', 'absent']))
+        if not ns or where == 'absent':
+            n = draw(S([6, 7]))                 # the stream values are made from 0..5
+        else:
+            n = ns[0] if where == 'first' else (ns[-1] if where == 'last' else draw(S(ns)))
+        sentinel = [kind, n]
+    stages, state = gen_agnostic_stages(draw)
+    terminal = draw(S(['iter', 'iter', 'all', 'first']))
+    if endless and terminal == 'all':
+        terminal = 'iter'
+    return {'domain': dom, 'source': {'items': ns, 'endless': endless}, 'stages': stages,
+            'subspec': DOMAINS[dom]['sub'] if sub else None, 'sentinel': sentinel, 'terminal': terminal,
+            'first': [draw(S(['T', 'never'])), draw(S([None, 'dflt']))], 'final_state': state}
 
 
 # ---------------------------------------------------------------------------
@@ -204,11 +271,60 @@ def add_stage(it, s):
     raise ValueError(s)
 
 
-def build_iter(recipe, stages=None):
-    sub = {None: None, 'skip3_stop5': skip3_stop5, 'skip_even': skip_even, 'inc': T + 1}[recipe['subspec']]
+# sub-specs of Iter(subspec): name -> (glom spec, plain function of the reference)
+SUBSPECS = {
+    'skip3_stop5': (lambda: skip3_stop5, skip3_stop5),
+    'skip_even': (lambda: skip_even, skip_even),
+    'inc': (lambda: T + 1, lambda x: x + 1),
+    'strip': (lambda: T.strip(), lambda x: x.strip()),
+    'int': (lambda: int, int),
+    'half': (lambda: T / 2, lambda x: x / 2),
+    'tuple': (lambda: tuple, tuple),
+}
+
+NOSENT = object()        # no sentinel= given
+
+
+# value domains of the `sentinel` sub-check.  Every function builds its value at run time, so two calls give two EQUAL
+# objects that are not the same object (check() verifies that).  n is a small int from the recipe.
+#   raw0(n): source item when there is no sub-spec        raw1(n): source item in front of the sub-spec `sub`
+#   sent(n): the sentinel that equals the stream value n
+DOMAINS = {
+    'str': {'raw0': lambda n: 'w%d' % n, 'raw1': lambda n: ' w%d\n' % n, 'sub': 'strip', 'sent': lambda n: ''.join(['w', str(n)])},
+    'bigint': {'raw0': lambda n: int(str(1000 + n)), 'raw1': lambda n: str(1000 + n), 'sub': 'int', 'sent': lambda n: int('1%03d' % n)},
+    'float': {'raw0': lambda n: float(n), 'raw1': lambda n: 2 * n, 'sub': 'half', 'sent': lambda n: float(str(n))},
+    # stream of small ints (which ARE shared objects), sentinel a float equal to one of them
+    'intfloat': {'raw0': lambda n: n, 'raw1': lambda n: n - 1, 'sub': 'inc', 'sent': lambda n: float(n)},
+    'tuple': {'raw0': lambda n: tuple([n, 'x']), 'raw1': lambda n: [n, 'x'], 'sub': 'tuple', 'sent': lambda n: tuple([n, 'x'])},
+}
+
+
+def realize(recipe):
+    """-> (source items, sentinel object | NOSENT); called once per check: both evaluations see the same objects"""
+    dom = recipe.get('domain')
+    s = recipe['sentinel']
+    if dom is None:
+        return list(recipe['source']['items']), (NOSENT if s == 'default' else s)
+    d = DOMAINS[dom]
+    raw = d['raw1'] if recipe['subspec'] is not None else d['raw0']
+    items = [raw(n) for n in recipe['source']['items']]
+    if s == 'default':
+        return items, NOSENT
+    if s[0] == 'eq':            # a new object equal to the stream value n
+        return items, d['sent'](s[1])
+    if s[0] == 'same':          # the source item itself
+        return items, (items[s[1] % len(items)] if items else d['sent'](s[1]))
+    if s[0] == 'raw':           # equal to the item in front of the sub-spec
+        return items, raw(s[1])
+    raise ValueError(s)
+
+
+def build_iter(recipe, stages=None, sentinel=NOSENT):
+    """(the sentinel object comes from realize(); the builder histories use none)"""
+    sub = None if recipe['subspec'] is None else SUBSPECS[recipe['subspec']][0]()
     kw = {}
-    if recipe['sentinel'] != 'default':
-        kw['sentinel'] = recipe['sentinel']
+    if sentinel is not NOSENT:
+        kw['sentinel'] = sentinel
     it = Iter(**kw) if sub is None else Iter(sub, **kw)
     for s in (recipe['stages'] if stages is None else stages):
         it = add_stage(it, s)
@@ -218,23 +334,18 @@ def build_iter(recipe, stages=None):
 # ---------------------------------------------------------------------------
 # reference stages (independent implementations)
 
-def r_base(src, recipe):
-    sub = recipe['subspec']
-    sentinel = recipe['sentinel']
+def r_base(src, recipe, sentinel=NOSENT):
+    """Iter(subspec, sentinel=): map the sub-spec over the source; SKIP drops the item, STOP ends the stream, and so does
+    the sentinel - "Same as with the built-in iter()": iter(callable, sentinel) ends at the first value that IS or EQUALS
+    the sentinel (identity first, then ==) and does not yield it."""
+    f = None if recipe['subspec'] is None else SUBSPECS[recipe['subspec']][1]
     for x in src:
-        if sub == 'skip3_stop5':
-            y = skip3_stop5(x)
-        elif sub == 'skip_even':
-            y = skip_even(x)
-        elif sub == 'inc':
-            y = x + 1
-        else:
-            y = x
+        y = x if f is None else f(x)
         if y is SKIP:
             continue
         if y is STOP:
             return
-        if sentinel != 'default' and y is sentinel:
+        if sentinel is not NOSENT and (y is sentinel or y == sentinel):
             return
         yield y
 
@@ -320,8 +431,8 @@ def r_stage(it, s):
     raise ValueError(s)
 
 
-def refpipe(src, recipe, stages=None):
-    it = r_base(src, recipe)
+def refpipe(src, recipe, stages=None, sentinel=NOSENT):
+    it = r_base(src, recipe, sentinel)
     for s in (recipe['stages'] if stages is None else stages):
         it = r_stage(it, s)
     return it
@@ -369,18 +480,49 @@ def allowance(stages):
     return a
 
 
-def lookahead_diverges(recipe):
+def lookahead_diverges(recipe, items, sentinel):
     """does the look-ahead a windowed(n) stage is allowed (n-1 items of ITS input) already need unboundedly many pulls?"""
     for j, s in enumerate(recipe['stages']):
         if s[0] == 'windowed' and s[1] > 1:
-            src = Src(list(recipe['source']['items']), recipe['source']['endless'])
+            src = Src(list(items), recipe['source']['endless'])
             try:
-                list(itertools.islice(refpipe(src, recipe, recipe['stages'][:j]), s[1] - 1))
+                list(itertools.islice(refpipe(src, recipe, recipe['stages'][:j], sentinel), s[1] - 1))
             except tg.BudgetExceeded:
                 return True
             except Exception:
                 return False
     return False
+
+
+def label_sentinel(recipe, items, sentinel, ctx):
+    """which class of sentinel case is this?  Decided on the values of the reference (one pass over the source items)."""
+    if sentinel is NOSENT:
+        ctx.label('sentinel-none')
+        return False
+    dom = recipe.get('domain') or 'smallint'
+    produced = list(r_base(iter(list(items)), recipe, NOSENT))
+    fresh = (recipe['sentinel'][0] == 'eq') if recipe.get('domain') else isinstance(sentinel, float)
+    if fresh:
+        # the generator promises "equal at most, never the same object": a shared object here would quietly turn the
+        # class into the one an identity comparison handles as well
+        if any(v is sentinel for v in produced) or any(v is sentinel for v in items):
+            raise HarnessBug('C17: the constructed sentinel %r is the same object as a stream value (domain %s)' % (sentinel, dom))
+    hit = [i for i, v in enumerate(produced) if v is sentinel or v == sentinel]
+    if not hit:
+        ctx.label('sentinel-miss', 'sentinel-miss-' + dom)
+        return False
+    i = hit[0]
+    if produced[i] is sentinel:
+        ctx.label('sentinel-hit-identical')
+        return False
+    sub = 'sub' if recipe['subspec'] is not None else 'nosub'
+    pos = 'first' if i == 0 else ('last' if i == len(produced) - 1 else 'middle')
+    ctx.label('sentinel-hit-equal-only', 'eqhit-' + dom, 'eqhit-' + sub, 'eqhit-%s-%s' % (dom, sub), 'eqhit-at-' + pos)
+    if recipe['stages']:
+        ctx.label('eqhit-stages-behind')
+    if recipe['source']['endless']:
+        ctx.label('eqhit-endless')
+    return True
 
 
 def check(recipe, ctx):
@@ -392,7 +534,9 @@ def check(recipe, ctx):
         ctx.label('stage-' + s[0])
     ctx.nontrivial(len(kinds) >= 2 or recipe['source']['endless'])
     fkey, fdefault = recipe['first']
-    spec_iter = build_iter(recipe)
+    items, sentinel = realize(recipe)
+    ctx.nontrivial(label_sentinel(recipe, items, sentinel, ctx))
+    spec_iter = build_iter(recipe, None, sentinel)
     if recipe['terminal'] == 'all':
         spec = spec_iter.all()
     elif recipe['terminal'] == 'first':
@@ -403,7 +547,7 @@ def check(recipe, ctx):
     repr0 = repr(spec_iter)
 
     def ref_make(src):
-        it = refpipe(src, recipe)
+        it = refpipe(src, recipe, None, sentinel)
         if recipe['terminal'] == 'first':
             key = FIRST_KEYS[fkey][1]
             for x in it:
@@ -416,11 +560,11 @@ def check(recipe, ctx):
         return glom.glom(src, spec)
 
     for rep in range(2):
-        rsrc = Src(list(recipe['source']['items']), recipe['source']['endless'])
+        rsrc = Src(list(items), recipe['source']['endless'])
         exp = run(ref_make, rsrc, recipe['terminal'], recipe['first'])
-        gsrc = Src(list(recipe['source']['items']), recipe['source']['endless'])
+        gsrc = Src(list(items), recipe['source']['endless'])
         got = run(glom_make, gsrc, recipe['terminal'], recipe['first'])
-        where = 'spec=%r source=%r evaluation #%d' % (spec, rsrc, rep + 1)
+        where = 'spec=%r%s source=%r evaluation #%d' % (spec, '' if sentinel is NOSENT else ' [sentinel=%r]' % (sentinel,), rsrc, rep + 1)
         ctx.label('exp-' + exp[0])
         if exp[0] == 'diverges':
             if got[0] == 'ok':
@@ -431,7 +575,7 @@ def check(recipe, ctx):
             if got[0] != 'err':
                 raise Mismatch('missing-error', '%s: the composition raises %r, glom: %r' % (where, exp[1], got))
             continue
-        if got[0] == 'diverges' and lookahead_diverges(recipe):
+        if got[0] == 'diverges' and lookahead_diverges(recipe, items, sentinel):
             # windowed() looks size-1 items ahead (its allowance); here its input never yields that many
             ctx.label('lookahead-diverges')
             continue
@@ -518,6 +662,8 @@ def ref_outputs(recipe, stages, items):
 def check_builder(recipe, ctx):
     items = recipe['source']['items']
     base_stages = recipe['stages']
+    if recipe['sentinel'] != 'default':
+        raise HarnessBug('C17 builder histories carry no sentinel: %r' % (recipe['sentinel'],))
     base = build_iter(recipe)
     repr0 = repr(base)
     stack0 = list(base._iter_stack) if hasattr(base, '_iter_stack') else None
@@ -654,6 +800,15 @@ SUBS = [
     Sub('resume', check_resume, gen=gen_resume, quick=400, thorough=2000),
     Sub('pipeline', check, gen=gen, quick=5000, thorough=20000,
         floors={'endless': 0.12, 'exp-ok': 0.5, 'stage-windowed': 0.03, 'stage-split': 0.03, 'stage-unique': 0.03,
-                'terminal-first': 0.08, 'terminal-all': 0.08}),
+                'terminal-first': 0.08, 'terminal-all': 0.08,
+                # sentinel 4.0 against the int 4 (equal, another object), with the int stages behind / the sub-spec T + 1 in front
+                'sentinel-hit-equal-only': 0.015, 'eqhit-stages-behind': 0.012, 'eqhit-smallint-sub': 0.003,
+                'sentinel-hit-identical': 0.014, 'sentinel-miss': 0.15}),
     Sub('builder', check_builder, gen=gen_builder, quick=1500, thorough=6000),
+    Sub('sentinel', check, gen=gen_sentinel, quick=1500, thorough=6000,
+        floors=dict([('sentinel-hit-equal-only', 0.25), ('sentinel-hit-identical', 0.022), ('sentinel-miss', 0.12), ('sentinel-none', 0.06),
+                     ('eqhit-sub', 0.11), ('eqhit-nosub', 0.13), ('eqhit-at-first', 0.14), ('eqhit-at-middle', 0.07),
+                     ('eqhit-at-last', 0.035), ('eqhit-stages-behind', 0.16), ('eqhit-endless', 0.085),
+                     ('eqhit-str', 0.04), ('eqhit-bigint', 0.045), ('eqhit-float', 0.06), ('eqhit-intfloat', 0.04), ('eqhit-tuple', 0.04)]
+                    + [('eqhit-%s-%s' % (d, w), 0.014) for d in sorted(DOMAINS) for w in ('sub', 'nosub')])),
 ]
